@@ -420,7 +420,7 @@ def failure_props(f):
 
 
 def code_props(code):
-    table = {1607: ['C16', 'C04', 'C07'], 1320: ['C13', 'C07'], 1321: ['C13', 'C02'], 1803: ['C18', 'C07', 'C14'], 903: ['C09', 'C04', 'C14'], 209: ['C02', 'C17'], 1302: ['C13', 'C08'], 1307: ['C13', 'C06'], 1313: ['C13', 'C11'], 1315: ['C13', 'C11'], 1103: ['C11', 'C13'],
+    table = {212: ['C02', 'C10', 'C03'], 1607: ['C16', 'C04', 'C07'], 1320: ['C13', 'C07'], 1321: ['C13', 'C02'], 1803: ['C18', 'C07', 'C14'], 903: ['C09', 'C04', 'C14'], 209: ['C02', 'C17'], 1302: ['C13', 'C08'], 1307: ['C13', 'C06'], 1313: ['C13', 'C11'], 1315: ['C13', 'C11'], 1103: ['C11', 'C13'],
              602: ['C06', 'C05'], 603: ['C06', 'C05'], 901: ['C09', 'C15'], 1104: ['C11'], 1105: ['C11'],
              1203: ['C12', 'C14'], 1204: ['C12', 'C14'],
              611: ['C06', 'C09'], 612: ['C06', 'C05'], 631: ['C06', 'C05', 'C13'], 632: ['C06', 'C05'], 633: ['C05', 'C06'],
@@ -454,6 +454,7 @@ CODE_TEXT = {
     1201: 'RPC routed to a different tunnel than the round-robin model picks', 1202: 'routing failed / succeeded contrary to the registry model',
     1203: 'Ready() differs from the registry model', 1204: 'AllReverseTunnels() differs from the registry model', 1205: 'open/close callback not exactly once, in order', 1206: 'WaitForReady still blocked although a matching tunnel is registered', 1207: 'n RPCs over n keyed tunnels did not use each tunnel once',
     1208: 'AllReverseTunnels returned the same tunnel twice',
+    212: 'an RPC the server refused ended at the caller with a result other than the status of the close frame handed to its endpoint',
     1607: 'the caller of a method with a non-streaming response was told success although no close_stream had been handed to its endpoint',
     1320: 'the frames the tunnel client emitted on a stream leave the grammar of the per-RPC model (Rpc.v gc_step): frame before new_stream, second new_stream, request data after half-close, second half-close or second cancel',
     1321: 'the frames the tunnel server emitted on a stream leave the grammar of the per-RPC model (Rpc.v gs_step): message before headers, headers twice, second close_stream or a frame other than a late window update after close_stream',
